@@ -105,6 +105,8 @@ PROPS["C02"] = {
     "subs": [
         {"name": "c02.parsers", "engine": "rapid", "asan_extra": ":alloc_dealloc_mismatch=0", "quick": R(6, 1200), "thorough": R(8, 400000)},
         {"name": "c02.parsers", "engine": "fuzz", "asan_extra": ":alloc_dealloc_mismatch=0", "max_len": 1200, "timeout": 30, "len_control": 20, "quick": F(4, 2500), "thorough": F(8, 3000000, max_total_time=1200)},
+        {"name": "c02.sweep", "engine": "enum", "asan_extra": ":alloc_dealloc_mismatch=0", "quick": {"workers": 8, "cases": 0, "params": {"partition_depth": 1}, "max_seconds": 300},
+         "thorough": {"workers": 8, "cases": 0, "params": {"partition_depth": 1}, "max_seconds": 1500}},
         {"name": "c02.message-modes", "engine": "rapid", "asan_extra": ":alloc_dealloc_mismatch=0", "quick": R(2, 1200), "thorough": R(4, 400000)},
         {"name": "c02.client", "engine": "rapid", "asan_extra": ":alloc_dealloc_mismatch=0", "quick": R(2, 2000), "thorough": R(8, 200000)},
         {"name": "c02.uninit", "engine": "rapid", "asan_extra": ":alloc_dealloc_mismatch=0", "quick": R(2, 500), "thorough": R(4, 200000)},
@@ -199,5 +201,20 @@ PROPS["C11"] = {
     "assumptions": ["no end-to-end-encryption extension installed"],
     "subs": [
         {"name": "c11.carbons", "engine": "rapid", "quick": R(8, 15000), "thorough": R(16, 1000000)},
+    ],
+}
+
+PROPS["C08"] = {
+    "binary": "c08_iqreply",
+    "seeds": True,
+    "level": "exploration",
+    "technique": "property-based testing (rapidcheck) on a socketless connected client: generated IQ stanzas (type x id x sender x payload harvested from the repository's tests) against generated client states (extension sets, own requests in flight with colliding ids); reply-counting oracle",
+    "level_text": ("Each case builds a client (no extensions | the five defaults | every bundled manager | one manager alone), optionally with 1-3 own requests in flight, delivers one generated IQ through the real receive path, drains the event loop and counts the emitted <iq type=result|error> stanzas: "
+                   "exactly one with the request's id addressed to the sender for get/set; none at all for result/error."),
+    "level_note": "Trusted: the harness reply counter over the client's sent-data log; payloads are the child elements of all IQ documents in the repository's tests plus synthetic unknown/none/several/child+error. A reply without 'to' is accepted for requests from the own account or own server (RFC 6120 10.3.3). IQs whose type is absent or not one of the four are not judged here (C02).",
+    "rule": "Non-trivial: a get/set whose payload is a known query element or whose id collides with an own request in flight, or any result/error. Distinct = (client setup, in-flight count, type, id kind, sender kind, payload element).",
+    "assumptions": ["the harness plays the application for handlers that defer the decision (declines incoming file offers)"],
+    "subs": [
+        {"name": "c08.iq", "engine": "rapid", "quick": R(8, 30000), "thorough": R(16, 600000)},
     ],
 }
